@@ -117,6 +117,22 @@ def main(argv):
         except Exception:
             pass
         state['active'] = False
+    # closed-looking expressions (no Name node, but calls / attribute access / lambdas) in every position a "helpful" evaluation might look at
+    NAMELESS = ["'a b'.split()", "['a'] * (lambda: 0).__code__.co_argcount", "['a'] + [(1).real.__class__.__name__]", "('%s' % 'a').upper()",
+                "['a'] * (lambda: 0).__globals__['__builtins__']['len']('xx')", "[].__class__.__base__.__subclasses__()", "(1).__add__(2)", "b'a'.decode()", "f'{1+1}'"]
+    for e in NAMELESS:
+        for src in ('__all__ = %s\ndef a():\n    return 1\n' % e, '__all__ = ["a"]\n__all__ += %s\ndef a():\n    return 1\n' % e, 'class K:\n    __slots__ = %s\n' % e,
+                    '__doc__ = %s\n' % e, 'def f(x=%s):\n    return x\n' % e, 'x = %s\ny = 1 + 2\n' % e, 'if %s:\n    pass\n' % e, 'assert %s\n' % e,
+                    '__version__ = %s\n' % e, 'X: %s = 1\n' % e):
+            for kw in ({}, {'rename_globals': True, 'remove_literal_statements': True, 'remove_asserts': True, 'remove_debug': True}):
+                cases += 1
+                state['active'] = True
+                state['case'] = src[:100]
+                try:
+                    python_minifier.minify(src, **kw)
+                except Exception:
+                    pass
+                state['active'] = False
     # a bytes source: the PEP 263 cookie is honoured by the parser; which modules get imported must not depend on it
     python_minifier.minify(b'# coding: utf-8\nx = 1\n')
     for cookie in ('utf-8', 'latin-1', 'ascii', 'idna', 'cp1140', 'bz2_codec', 'zlib_codec', 'punycode', 'canary_codec_that_does_not_exist'):
